@@ -221,9 +221,14 @@ class RC:
                 break
         return self.viol
 
-    def ret_of(self, f):
+    def ret_of(self, f, call=None):
         """declared or (inference mode) inferred result type of a function."""
         if self.infer and f.ret_type is None:
+            if id(f) in self.__dict__.get('_inferring', ()):
+                # the result type of f is being inferred from a body that calls f: no compiler can infer it
+                direct = call is not None and self.__dict__.get('_body_call', {}).get(id(f)) == id(call)
+                self.report('R3-infer-recursive-result-type/%s' % ('body-is-the-call' if direct else 'call-nested-in-body'),
+                            ['global', f.name], None, f.name, f)
             r = getattr(self, 'fret', {}).get(id(f))
             if r is not None:
                 return r
@@ -489,7 +494,17 @@ class RC:
         rt = self.dt(f.get_type())
         infer = self.infer and f.ret_type is None
         exp = None if (rt == self.void or infer) else rt
-        bt = self.body(f.body, fenv, p2, exp)
+        if infer:
+            self.__dict__.setdefault('_inferring', set()).add(id(f))
+            b0 = f.body
+            if isinstance(b0, self.ast.Block) and len(b0.body) == 1:
+                b0 = b0.body[0]
+            self.__dict__.setdefault('_body_call', {})[id(f)] = id(b0)
+        try:
+            bt = self.body(f.body, fenv, p2, exp)
+        finally:
+            if infer:
+                self._inferring.discard(id(f))
         if infer:
             self.bump('inferred_return_types')
             it_ = self.strip_cap(self.upper(bt))
@@ -957,7 +972,7 @@ class RC:
                 if not ok:
                     self.report('R6-call-type-argument-bound', p2 + [tpar.name], b, a, e)
         self.call_args(f, e.args, th, env, p2, e)
-        rt_ = self.ret_of(f)
+        rt_ = self.ret_of(f, e)
         return rm.subst(rt_, th)
 
     def defaults_inherited(self, f):
